@@ -386,13 +386,19 @@ def simplify_unitary(expr: e.Expr, t_name: str,
             # U_pq U_pr = delta_qr
             if idx1[0] == idx2[0] and idx1[0] not in target and \
                     idx_counter[idx1[0]] == 2:
-                delta = KroneckerDelta(idx1[1], idx2[1])
+                remaining = (idx1[1], idx2[1])
             # U_qp U_rp = delta_qr
             elif idx1[1] == idx2[1] and idx1[1] not in target and \
                     idx_counter[idx1[1]] == 2:
-                delta = KroneckerDelta(idx1[0], idx2[0])
+                remaining = (idx1[0], idx2[0])
             else:  # no matching indices
                 continue
+            # U_pq U_pq = delta_qq = 1 is only valid if the sum over q
+            # survives: q has to be a target index or occur on another object
+            if remaining[0] is remaining[1] and remaining[0] not in target \
+                    and idx_counter[remaining[0]] == 2:
+                continue
+            delta = KroneckerDelta(*remaining)
 
             # lower the exponent of the 2 unitary tensors and
             # add the created delta to the term
